@@ -16,6 +16,11 @@ A universe is a plain (JSON-able) description:
         | ['dbl', repr] | ['date', iso] | ['time', iso] | ['dt', iso] | ['dur', microseconds]
         | ['uuid', s] | ['bytes', hex] | ['chunks', [hex], 'tuple'|'list'] (a ByteArray value given as a
           sequence of chunks) | ['obj', cid, [VALUE]] | ['list', [VALUE]]
+        | ['as', PYKIND, VALUE]  the same leaf value handed over as another Python type that is an instance of
+          (or commonly passed for) the native type: 'datetime' / 'datetime-utc' for a Date, 'int' / 'float' for a
+          Decimal, 'int' for a Double / Float / Boolean, 'strsub' (a str subclass) for a string, 'bool' for an integer
+  EVOLVE = [{'op': 'append'|'insert'|'replace', 'cid': int, 'index': int, 'field': FIELD}]  members added to /
+          replaced in a class after the classes have been used (append_field / insert_field / _replace_field)
 
 Everything random comes from the rng passed in.  Nothing here looks at the schema Spyne
 generates: the reference predicates (leaf_conforms, ...) are written from the declared
@@ -55,12 +60,39 @@ INT_POOL = [0, 1, -1, 2, 7, 9, 10, 99, 100, 127, 128, -128, -129, 255, 256, 3276
             -2 ** 63 - 1, 2 ** 64 - 1, 2 ** 64, 10 ** 30, -10 ** 30]
 DEC_POOL = ['0', '1', '-1', '0.5', '-0.5', '1.50', '12.345', '100', '1E+2', '1E+10', '2.8E+10', '1E-7', '1.2E-8', '-3E+3', '0E+3',
             '0.000001', '0.0000001', '123456789.123456789', '-0.00', '99.99', '100.00', '1000', '999.999']
+FINE_DBL = [2.5e-06, 1.25e-07, 0.1234567, 0.00000049, 3.0000004, 123456.7890123, -2.5e-06, -0.7654321]
 DBL_POOL = [0.0, 1.0, -1.0, 0.5, 1.5, 2.5, 1e22, 1e-5, 1e16, 123456.789, -2.5e-10, 3.141592653589793, 1e308, 5e-324, 100.0]
 
 
 # ------------------------------------------------------------------ neutral values <-> native
+def core(v):
+    """the leaf value behind the Python type it is handed over as"""
+    while v[0] == 'as':
+        v = v[2]
+    return v
+
+
+class StrSub(str):
+    pass
+
+
 def to_native_leaf(v):
     k = v[0]
+    if k == 'as':
+        o = to_native_leaf(v[2])
+        if v[1] == 'datetime':
+            return datetime.datetime(o.year, o.month, o.day, 12, 30, 15)
+        if v[1] == 'datetime-utc':
+            return datetime.datetime(o.year, o.month, o.day, 23, 59, 59, 250000, tzinfo=datetime.timezone.utc)
+        if v[1] == 'int':
+            return int(o)
+        if v[1] == 'float':
+            return float(o)
+        if v[1] == 'bool':
+            return bool(o)
+        if v[1] == 'strsub':
+            return StrSub(o)
+        raise ValueError(v)
     if k == 'none':
         return None
     if k in ('int', 'text', 'bool', 'uuid_s'):
@@ -92,6 +124,7 @@ def denoted_bytes(v):
 
 def canon_text(base, v):
     """the canonical XSD literal of a neutral leaf value, written independently of Spyne"""
+    v = core(v)
     k = v[0]
     if k == 'int':
         return str(v[1])
@@ -142,6 +175,7 @@ def xml_ok_text(s):
 
 # ------------------------------------------------------------------ ordering of ordered leaf values
 def ord_key(v):
+    v = core(v)
     k = v[0]
     if k == 'int':
         return D(v[1])
@@ -159,6 +193,7 @@ def ord_key(v):
 
 
 def same_value(a, b):
+    a, b = core(a), core(b)
     if a[0] != b[0]:
         return False
     if a[0] in ('int', 'dec', 'dbl', 'date', 'time', 'dt'):
@@ -186,6 +221,7 @@ def leaf_conforms(leaf, v, publishable_only=False):
     Written from the Spyne attribute documentation: gt/ge/lt/le, values, min_len/max_len,
     pattern (whole string), total_digits/fraction_digits, hardware bounds."""
     base, fa = leaf['base'], leaf['facets']
+    v = core(v)
     if base in INT_BOUNDS:
         if v[0] != 'int':
             return False
@@ -300,6 +336,16 @@ def gen_leaf_type(rng, base=None, facet_p=0.7, extra=False):
                 fa[rng.choice(['ge', 'gt'])] = ['dec', str(c - w)]
             if rng.random() < 0.7:
                 fa[rng.choice(['le', 'lt'])] = ['dec', str(c + w)]
+    elif base == 'double' and rng.random() < 0.3:
+        # bounds / enumerations that need more than six decimals, or lie below 1e-6
+        c = rng.choice(FINE_DBL)
+        if rng.random() < 0.25:
+            fa['values'] = [['dbl', repr(x)] for x in rng.sample(FINE_DBL, rng.randint(1, 3))]
+        else:
+            if rng.random() < 0.8:
+                fa[rng.choice(['ge', 'gt'])] = ['dbl', repr(c)]
+            if rng.random() < 0.6:
+                fa[rng.choice(['le', 'lt'])] = ['dbl', repr(c + abs(c) * rng.choice([0.25, 1.0, 3.0]))]
     elif base in ('double', 'float'):
         pool = DBL_POOL if base == 'double' else [0.0, 1.0, -1.0, 0.5, 1.5, 2.5, 100.0, 1024.0, -0.25]
         c = rng.choice(pool)
@@ -387,6 +433,11 @@ def _raw_leaf_value(rng, leaf):
         for a in anchors:
             x = float(a[1])
             cands += [x, x + 0.5, x - 0.5, x + 1.0, x - 1.0] * 2
+            if base == 'double':
+                # between the bound and what is left of it after rounding to six decimals, and just around it
+                r6 = round(x, 6)
+                cands += [r6, (x + r6) / 2, x * (1 + 1e-9), x * (1 - 1e-9), x + abs(x) * 0.05, x - abs(x) * 0.05,
+                          x + abs(x) * 0.2, x - abs(x) * 0.2] * 2
         return ['dbl', repr(rng.choice(cands))]
     if base == 'date':
         cands = [datetime.date(2020, 2, 29), datetime.date(1, 1, 1), datetime.date(9999, 12, 31), datetime.date(1999, 12, 31)]
@@ -729,15 +780,17 @@ def leaf_kwargs(leaf):
     return kw
 
 
-def build_spyne(desc):
-    """the real Spyne classes of a universe (index = cid)"""
-    from spyne.model.complex import ComplexModel, ComplexModelMeta, Array, XmlAttribute
+def build_simples(desc):
     out = []
-
-    simples = []
     for sd in desc.get('simples', []):
         k2 = dict(leaf_kwargs(sd['leaf']), type_name=sd['name'], __namespace__=sd['ns'])
-        simples.append(spyne_leaf(sd['leaf']).customize(**k2))
+        out.append(spyne_leaf(sd['leaf']).customize(**k2))
+    return out
+
+
+def field_type(f, classes, simples):
+    """the Spyne type of a member (classes: the classes built so far)"""
+    from spyne.model.complex import Array, XmlAttribute
 
     def ty_of(ty, kw):
         if ty[0] == 'leaf' and 'named' in ty[1]:
@@ -750,27 +803,96 @@ def build_spyne(desc):
             k2.update(kw)
             return spyne_leaf(ty[1]).customize(**k2) if k2 else spyne_leaf(ty[1])
         if ty[0] == 'ref':
-            return out[ty[1]].customize(**kw) if kw else out[ty[1]]
+            return classes[ty[1]].customize(**kw) if kw else classes[ty[1]]
         return Array(ty_of(ty[1], {}), **kw)
 
+    kw = {'min_occurs': f['min'], 'nillable': f['nillable']}
+    if f['max'] != 1:
+        kw['max_occurs'] = 'unbounded' if f['max'] is None else f['max']
+    if f.get('choice'):
+        kw['xml_choice_group'] = f['choice']
+    if f.get('default') is not None:
+        kw['default'] = to_native_leaf(f['default'])
+    if f['kind'] == 'attr':
+        return XmlAttribute(ty_of(f['ty'], kw))
+    return ty_of(f['ty'], kw)
+
+
+def build_spyne(desc):
+    """the real Spyne classes of a universe (index = cid)"""
+    from spyne.model.complex import ComplexModel, ComplexModelMeta
+    out = []
+    simples = build_simples(desc)
     for c in desc['classes']:
-        ti = []
-        for f in c['fields']:
-            kw = {'min_occurs': f['min'], 'nillable': f['nillable']}
-            if f['max'] != 1:
-                kw['max_occurs'] = 'unbounded' if f['max'] is None else f['max']
-            if f.get('choice'):
-                kw['xml_choice_group'] = f['choice']
-            if f.get('default') is not None:
-                kw['default'] = to_native_leaf(f['default'])
-            if f['kind'] == 'attr':
-                t = XmlAttribute(ty_of(f['ty'], kw))
-            else:
-                t = ty_of(f['ty'], kw)
-            ti.append((f['name'], t))
+        ti = [(f['name'], field_type(f, out, simples)) for f in c['fields']]
         base = ComplexModel if c['parent'] is None else out[c['parent']]
         out.append(ComplexModelMeta(c['name'], (base,), {'__namespace__': c['ns'], '_type_info': ti}))
     return out
+
+
+# ------------------------------------------------------------------ universes that change after they have been used
+def gen_evolution(rng, desc, n_steps=2):
+    """members added to / replaced in classes that already exist (and have been used): mostly on
+    classes other classes derive from, mostly mandatory and restricted"""
+    import copy
+    cur = copy.deepcopy(desc)
+    steps = []
+    parents = sorted(set(c['parent'] for c in cur['classes'] if c['parent'] is not None))
+    for k in range(n_steps):
+        cid = rng.choice(parents) if parents and rng.random() < 0.8 else rng.randrange(len(cur['classes']))
+        fields = cur['classes'][cid]['fields']
+        for _ in range(30):
+            leaf = gen_leaf_type(rng, rng.choice(INT_BASES + STR_BASES * 3 + ['decimal', 'boolean', 'date', 'double']), 0.85)
+            if leaf_satisfiable(rng, leaf):
+                break
+        else:
+            leaf = {'base': 'string', 'facets': {'max_len': 3}}
+        f = {'name': 'e%d' % k, 'ty': ['leaf', leaf], 'min': rng.choice([1, 1, 0]), 'max': 1, 'nillable': rng.random() < 0.4,
+             'kind': 'attr' if rng.random() < 0.15 else 'elem', 'choice': None, 'default': None}
+        r = rng.random()
+        plain = [i for i, g in enumerate(fields) if g['kind'] == 'elem' and not g.get('choice') and g['ty'][0] == 'leaf']
+        if r < 0.25 and plain:
+            i = rng.choice(plain)              # the same member, declared anew (other facets, now mandatory)
+            f['name'], f['kind'] = fields[i]['name'], 'elem'
+            step = {'op': 'replace', 'cid': cid, 'index': i, 'field': f}
+        elif r < 0.55:
+            edges = [i for i in range(len(fields) + 1)
+                     if not (0 < i < len(fields) and fields[i - 1].get('choice') and fields[i - 1].get('choice') == fields[i].get('choice'))]
+            step = {'op': 'insert', 'cid': cid, 'index': rng.choice(edges), 'field': f}      # never inside a choice group
+        else:
+            step = {'op': 'append', 'cid': cid, 'index': len(fields), 'field': f}
+        steps.append(step)
+        cur = evolve_desc(cur, [step])
+    return steps
+
+
+def evolve_desc(desc, steps):
+    import copy
+    out = copy.deepcopy(desc)
+    for st in steps:
+        fields = out['classes'][st['cid']]['fields']
+        if st['op'] == 'replace':
+            fields[st['index']] = copy.deepcopy(st['field'])
+        else:
+            fields.insert(st['index'], copy.deepcopy(st['field']))
+    return out
+
+
+def prepare_evolution(desc, classes, steps):
+    """the member types are built before the classes are used: nothing but the append / insert /
+    replace calls themselves happens between the use and the fresh applications"""
+    simples = []
+    return [(classes[st['cid']], st['op'], st['index'], st['field']['name'], field_type(st['field'], classes, simples)) for st in steps]
+
+
+def commit_evolution(prepared):
+    for cls, op, index, name, t in prepared:
+        if op == 'append':
+            cls.append_field(name, t)
+        elif op == 'insert':
+            cls.insert_field(index, name, t)
+        else:
+            cls._replace_field(name, t)
 
 
 CALLS = []
@@ -821,12 +943,43 @@ def to_native(desc, classes, v):
 
 
 # ------------------------------------------------------------------ conformant values
+VARIANTS = [False]      # hand conformant leaf values over as other compatible Python types (direct oracle only)
+
+
+def variant_of(rng, leaf, v, p=0.35):
+    """the same value as an instance of another Python type that is (a subclass of) the native type
+    of the leaf class, or is commonly passed for it"""
+    if not VARIANTS[0] or v is None or rng.random() >= p:
+        return v
+    base = leaf['base']
+    if base == 'date':
+        return ['as', rng.choice(['datetime', 'datetime-utc']), v]
+    if base == 'decimal':
+        d = D(v[1])
+        if d == d.to_integral_value() and abs(d) < 10 ** 15:
+            return ['as', 'int', v]
+        f = float(d)
+        if D(repr(f)) == d and 'e' not in repr(f) and 'E' not in str(d):
+            return ['as', 'float', v]
+        return v
+    if base in ('double', 'float'):
+        f = float(v[1])
+        if f == f and abs(f) < 1e15 and f == int(f):
+            return ['as', 'int', v]
+        return v
+    if base == 'boolean':
+        return ['as', 'int', v]
+    if base in STR_BASES:
+        return ['as', 'strsub', v]
+    return v
+
+
 def gen_conformant(rng, desc, ty, depth, nullable=True):
     """a value satisfying every declared constraint of ty (None only where allowed)"""
     if nullable and rng.random() < 0.15:
         return ['none']
     if ty[0] == 'leaf':
-        v = gen_leaf_value(rng, ty[1], True, 300)
+        v = variant_of(rng, ty[1], gen_leaf_value(rng, ty[1], True, 300))
         return v if v is not None else ['none']
     if ty[0] == 'arr':
         n = 0 if depth <= 0 else rng.choice([0, 1, 2, 3])
@@ -858,7 +1011,7 @@ def gen_field(rng, desc, f, depth):
         v = gen_leaf_value(rng, ty[1], True)
         if v is None:
             return ['none']
-        return v
+        return variant_of(rng, ty[1], v)
     shallow = depth <= 0 and ty[0] != 'leaf'
     if is_multi(f):
         if f['min'] <= 0 and rng.random() < 0.2:
@@ -950,11 +1103,10 @@ def _leaf_text0(rng, leaf, bad_p, notes, where):
 def _doc_obj(rng, desc, classes, cid, ns, name, depth, bad_p, nil_p, notes):
     from lxml import etree
     e = etree.Element('{%s}%s' % (ns, name) if ns else name)
-    cls = classes[cid]
-    fti = cls.get_flat_type_info(cls)
     groups = set()
     for dcid, f in flat_fields(desc, cid):
         dns = desc['classes'][dcid]['ns']
+        fti = classes[dcid]._type_info       # what the declaring class says now (not Spyne's flattened, memoized view)
         if f['kind'] == 'attr':
             present = rng.random() < (0.85 if f['min'] > 0 else 0.5)
             if present:
@@ -1180,6 +1332,7 @@ class Renderer(object):
         self.opq = {}      # (kind, text) -> seen
 
     def sval(self, leaf, v, scls):
+        v = core(v)
         k = v[0]
         if k == 'int':
             return '(SInt %s)' % gz(v[1])
